@@ -635,17 +635,32 @@ def measure_set(repo: Repo) -> List[Ob]:
     # CompositeEnvelope.measure: an envelope is retired only when both members were measured
     ce = repo.func("CompositeEnvelope.measure")
     cfg = CFG(ce.node)
+    from ..cfg import refine
+
+    def atom(e, truth, st):
+        if isinstance(e, ast.Name) and e.id == "separate_measurement":
+            if st is not None and st != truth:
+                return []
+            return [truth]
+        return [st]
+
+    def transfer(s, lab, d, st):
+        if s.kind in ("test", "assert") and lab in ("T", "F"):
+            return refine(s.ast, lab == "T", st, atom)
+        return [st]
+
+    seen = explore(cfg, None, transfer)
     k = 0
     for n in cfg.nodes:
         for x in walk_node(n):
             mc = method_call(x)
             if mc and mc[1] == "_set_measured" and src(mc[0]).endswith(".envelope"):
                 k += 1
-                tests = [t for t in cfg.nodes if t.kind == "test" and any(isinstance(y, ast.Name) and y.id == "separate_measurement" for y in ast.walk(t.ast)) and n in cfg.reachable([t])
-                         and cfg.must_pass_through(n, {t})]
-                (obs.append(ok("MEASURE-SET", ce, f"retire-envelope#{k}", ("C05",), x, "envelope retirement depends on separate_measurement")) if tests else
-                 obs.append(bad("MEASURE-SET", ce, f"retire-envelope#{k}", ("C05",), x,
-                                "the envelope of every listed member is retired whenever the measurement is destructive, also under separate_measurement=True where its partner was *not* measured: the surviving partner's envelope reports `measured`")))
+                under_sep = any(st is True for st in seen[n])
+                (obs.append(bad("MEASURE-SET", ce, f"retire-envelope#{k}", ("C05",), x,
+                                "the envelope of every listed member is retired whenever the measurement is destructive, also under separate_measurement=True where its partner was *not* measured: "
+                                "the envelope of the surviving partner reports `measured` and refuses further use")) if under_sep else
+                 obs.append(ok("MEASURE-SET", ce, f"retire-envelope#{k}", ("C05",), x, "an envelope is retired only when its partner was measured as well")))
     if k < 1:
         raise AnalysisError("MEASURE-SET: envelope retirement in CompositeEnvelope.measure not found")
     # partner completion: without separate_measurement the envelope partner joins the list
